@@ -269,22 +269,29 @@ func runC02(r *core.Run) {
 		data, fail := writeFastqChecked(recs)
 		return data, wantFastq(recs), true, fail
 	})
-	escapeSpellingsClause(r, "fastq", []string{"name", "seq", "qual"}, func(field, v string) ([]byte, []obsItem, bool, string) {
-		if hasDelim(v) {
-			return nil, nil, false, ""
+	fastqFields := func(field string, vals []string) ([]byte, []obsItem, bool, string) {
+		recs := []fqRec{{"first", "AC", "II"}}
+		for i, v := range vals {
+			if hasDelim(v) {
+				return nil, nil, false, ""
+			}
+			rec := fqRec{core.S(fmt.Sprint("n", i)), "ACGT", "IIII"}
+			switch field {
+			case "name":
+				rec.Name = core.S(v)
+			case "seq":
+				rec.Seq, rec.Qual = core.S(v), core.S(strings.Repeat("I", len(v)))
+			default:
+				rec.Seq, rec.Qual = core.S(strings.Repeat("A", len(v))), core.S(v)
+			}
+			recs = append(recs, rec)
 		}
-		recs := []fqRec{{"first", "AC", "II"}, {"n", "ACGT", "IIII"}, {"last", "G", "I"}}
-		switch field {
-		case "name":
-			recs[1].Name = core.S(v)
-		case "seq":
-			recs[1].Seq, recs[1].Qual = core.S(v), core.S(strings.Repeat("I", len(v)))
-		default:
-			recs[1].Seq, recs[1].Qual = core.S(strings.Repeat("A", len(v))), core.S(v)
-		}
+		recs = append(recs, fqRec{"last", "G", "I"})
 		data, fail := writeFastqChecked(recs)
 		return data, wantFastq(recs), true, fail
-	})
+	}
+	escapeSpellingsClause(r, "fastq", []string{"name", "seq", "qual"}, fastqFields)
+	relativesClause(r, "fastq", []string{"name", "seq", "qual"}, fastqFields)
 	interleavedReadersFor(r, []string{"fastq"})
 	consumerMutatesRecords(r, []string{"fastq"})
 	bigFiles(r, "fastq", []int{0})
